@@ -28,6 +28,7 @@ import (
 	"runtime"
 	"strconv"
 	"strings"
+	"sync"
 	"sync/atomic"
 	"time"
 
@@ -220,26 +221,66 @@ func C18Perturb(y, spin, rep int) {
 }
 
 // C18StartBarrier makes n goroutines leave together: each announces itself and
-// then spins (yielding, so that it also works with GOMAXPROCS=1) until all
-// have arrived.
+// then spins for a while (yielding, so that it also works with GOMAXPROCS=1)
+// until all have arrived; a waiter that has spun long enough parks on a
+// condition variable, so that a goroutine stuck forever inside the library
+// still ends in the runtime's "all goroutines are asleep" report instead of a
+// livelock of spinning waiters.
 type C18StartBarrier struct {
 	n       int32
 	arrived int32
 	abort   *int32 // shared by the barriers of one run: set when a participant died
+	mu      sync.Mutex
+	cond    *sync.Cond
 }
 
-func C18NewBarrier(n int) *C18StartBarrier { return &C18StartBarrier{n: int32(n), abort: new(int32)} }
+func c18NewBarrier(n int, abort *int32) *C18StartBarrier {
+	b := &C18StartBarrier{n: int32(n), abort: abort}
+	b.cond = sync.NewCond(&b.mu)
+	return b
+}
 
-// Abort releases everybody waiting (now or later) on any barrier created by
-// the same C18RoundBarriers call: used when a worker goroutine panicked.
-func (b *C18StartBarrier) Abort() { atomic.StoreInt32(b.abort, 1) }
+func C18NewBarrier(n int) *C18StartBarrier { return c18NewBarrier(n, new(int32)) }
+
+func (b *C18StartBarrier) done() bool {
+	return atomic.LoadInt32(&b.arrived) >= b.n || atomic.LoadInt32(b.abort) != 0
+}
+
+func (b *C18StartBarrier) wake() {
+	b.mu.Lock()
+	b.cond.Broadcast()
+	b.mu.Unlock()
+}
 
 func (b *C18StartBarrier) Wait() {
-	atomic.AddInt32(&b.arrived, 1)
-	for i := 0; atomic.LoadInt32(&b.arrived) < b.n && atomic.LoadInt32(b.abort) == 0; i++ {
-		if i&15 == 15 || runtime.GOMAXPROCS(0) == 1 {
+	if atomic.AddInt32(&b.arrived, 1) >= b.n {
+		b.wake()
+		return
+	}
+	single := runtime.GOMAXPROCS(0) == 1
+	for i := 0; i < 20000; i++ {
+		if b.done() {
+			return
+		}
+		if i&15 == 15 || single {
 			runtime.Gosched()
 		}
+	}
+	b.mu.Lock()
+	for !b.done() {
+		b.cond.Wait()
+	}
+	b.mu.Unlock()
+}
+
+// C18AbortBarriers releases everybody waiting (now or later) on these
+// barriers: used when a worker goroutine panicked and will never arrive.
+func C18AbortBarriers(bars []*C18StartBarrier) {
+	for _, b := range bars {
+		atomic.StoreInt32(b.abort, 1)
+	}
+	for _, b := range bars {
+		b.wake()
 	}
 }
 
@@ -263,7 +304,7 @@ func C18RoundBarriers(lens []int) []*C18StartBarrier {
 				k++
 			}
 		}
-		out[i] = &C18StartBarrier{n: int32(k), abort: abort}
+		out[i] = c18NewBarrier(k, abort)
 	}
 	return out
 }
